@@ -28,15 +28,16 @@ import (
 // Input is one self-contained case: the exact source bytes (as a Go string,
 // JSON-escaped; invalid UTF-8 is carried in Hex instead).
 type Input struct {
-	Kind    string   `json:"kind"` // bytes | truncation | token-mutation | invalid | nesting | valid
-	Src     string   `json:"src,omitempty"`
-	Hex     string   `json:"hex,omitempty"`
-	Mode    int      `json:"mode"`
-	Invalid string   `json:"invalid,omitempty"` // the inserted invalid construct, for invalid kind
-	Params  string   `json:"params,omitempty"`  // parsefunction kind: the two texts handed to parser.ParseFunction
-	Body    string   `json:"body,omitempty"`
-	Closes  bool     `json:"closes,omitempty"` // parsefunction: the texts close the function early (must be rejected)
-	Srcs    []string `json:"srcs,omitempty"`   // fileset kind: sources parsed one after the other into one file.FileSet
+	Kind       string   `json:"kind"` // bytes | truncation | token-mutation | invalid | nesting | valid
+	Src        string   `json:"src,omitempty"`
+	Hex        string   `json:"hex,omitempty"`
+	Mode       int      `json:"mode"`
+	Invalid    string   `json:"invalid,omitempty"` // the inserted invalid construct, for invalid kind
+	Params     string   `json:"params,omitempty"`  // parsefunction kind: the two texts handed to parser.ParseFunction
+	Body       string   `json:"body,omitempty"`
+	Closes     bool     `json:"closes,omitempty"`      // parsefunction: the texts close the function early (must be rejected)
+	WellFormed bool     `json:"well_formed,omitempty"` // parsefunction: both texts are complete (must be accepted)
+	Srcs       []string `json:"srcs,omitempty"`        // fileset kind: sources parsed one after the other into one file.FileSet
 }
 
 func (in Input) source() string {
@@ -107,6 +108,10 @@ var invalidSnippets = []string{
 	"[1 2];", "f(1 2);", "f(,);", "a.b.;", "a..b;", "a.1;", "a.;", "new;", "x = ;", "x = 1 +;", "x = * 2;", "a ? b;", "a ? b : ;", "(;", ");", "(a;", "a);", "{", "}", "[;", "];", "a[;", "a[1;",
 	"throw\n1;", "throw;", "do ; while", "while () ;", "while (1", "for (;;", "for (;) ;", "for (a;b) ;", "if () ;", "if (1", "with () ;", "with;",
 	"a &^ b;", "a &^= 1;", "3in x;", "3x;", "0x;", "0xg;", "1e;", "1e+;", "08.5x;", "1.2.3;", "@;", "#;", "a # b;", "\\u00zz;", "\\u0030a;", "a\\u0020b;", "\"\\u12\";", "'\\x1';", "\"\\u{61}\"x;", "x = 'a' 'b';", "x = 1 2;", "a b;", "a => b;", "`t`;", "let x y;", "a ** ;",
+	"({+: 1});", "({;: 1});", "({=: 1});", "({get +() {}});", "({1e: 1});", "({0x: 1});", "({\\: 1});",
+	"a: { for (;;) { continue a; } }", "a: if (1) for (;;) continue a;", "a: try { for (;;) continue a; } finally {}", "a: switch (1) { case 1: while (1) continue a; }", "a: b: { for (;;) continue b; }",
+	"var\u0085a = 1;", "x\u0085= 1;", "x = a.b\u00b7c;", "x = a.\u2118;",
+	"(a): b;", "((a)): for (;;) break a;", "x = /[\\\n]/;", "x = /[a\\\r\nb]/g;", "x = /a\\\n/;",
 	"x = /[", "x = /[a", "x = /a[\\", "x = /[^", "f(a,);", "new f(a,);", "f(a,,b);",
 	"x = function (a a) {};", "x = function f(", "x = {", "x = [", "x = (", "debugger x;", "delete;", "typeof;", "void;", "x = new new;", "in x;", "instanceof x;", ", x;", "? x : y;", ": x;", "x = a ?? ;",
 }
@@ -168,6 +173,13 @@ func contextInvalid(r *gen.Rand) string {
 		return "switch (x) { case 1: (function () { " + body + " }); }"
 	}
 	return body
+}
+
+var validSnippets = []string{
+	"for (;;) { break; }", "for (;;) break;", "for (; $fuel < 0;) ;", "for (;; $fuel++) break;", "for (var vs1;;) break;", "for (vs2 in {}) ;",
+	"va: for (;;) { continue va; }", "va: vb: while (1) { if (1) break va; continue vb; }", "va: do { continue va; } while (0);", "va: for (vs3 in {a: 1}) { continue va; }", "va: { vb: for (;;) { break va; } }",
+	"vs4 = /[/]/.test('/');", "vs5 = {if: 1, class: 2, null: 3, true: 4}.if;", "vs6 = [,].length + [1,,].length;", "if (0) ; else ;", "vs7 = 1 /* c\n c */ + 2;", "switch (1) {}", "try {} catch (vs8) {} finally {}",
+	"vs9\u00a0=\ufeff1;", "vs10 = 'a\\\nb';", "do ; while (0) vs11 = 1;", "vs12 = function () {}\n(1);",
 }
 
 var vm *otto.Otto
@@ -309,6 +321,10 @@ func exec(c *run.Ctx, i int) {
 		checkOne(c, mk("nesting", src, mode))
 	default: // valid programs: must be accepted, tree well-formed
 		_, src := validProgram(r)
+		if r.Bool() {
+			// forms the program generator does not produce
+			src += "\n" + validSnippets[r.Intn(len(validSnippets))]
+		}
 		checkOne(c, mk("valid", src, mode))
 	}
 }
@@ -345,11 +361,12 @@ func parse(src string, mode int) res {
 // (15.3.2.1), so they must be rejected.
 func genParseFunction(r *gen.Rand) Input {
 	in := Input{Kind: "parsefunction"}
-	params := []string{"", "a", "a, b", "a,b,c", " a ", "a /* c */, b", "\\u0061", "a\n"}
+	params := []string{"", "a", "a, b", "a,b,c", " a ", "a /* c */, b", "\\u0061", "a\n", "a, b // c", "a // c\n, b", "a /* c */"}
 	bodies := []string{"", "return a", "return a + b;", "var x = 1; return x", "if (a) { return 1 } return 2", "// c", "/* c */ return 1", "return function(){ return a }", "x: for(;;) break x"}
 	switch r.Intn(4) {
 	case 0: // well-formed
 		in.Params, in.Body = params[r.Intn(len(params))], bodies[r.Intn(len(bodies))]
+		in.WellFormed = true
 	case 1: // early close in the body
 		in.Params = params[r.Intn(len(params))]
 		pre := bodies[r.Intn(len(bodies))]
@@ -359,8 +376,11 @@ func genParseFunction(r *gen.Rand) Input {
 		in.Body = pre + []string{"}); (function(){", "}), (function(){", "} + function(){", "}; x = function(){", "})(1); (function(){", "}).call(this), (function(){", "}\n);\n(function(){", "}) /* */ , (function(){"}[r.Intn(8)] + bodies[r.Intn(len(bodies))]
 		in.Closes = true
 	case 2: // early close in the parameters
-		in.Params = []string{"a){}), (function(b", "){}); (function(", "a){} + function(", "a) { return 1 }), (function(b", "a, b){}); (function(c"}[r.Intn(5)]
+		in.Params = []string{"a){}), (function(b", "){}); (function(", "a){} + function(", "a) { return 1 }), (function(b", "a, b){}); (function(c", "/*", "a /*", "a, /* b"}[r.Intn(8)]
 		in.Body = bodies[r.Intn(len(bodies))]
+		if strings.HasSuffix(in.Params, "/*") || strings.HasSuffix(in.Params, "/* b") {
+			in.Body = "*/){" + in.Body // the comment opened in the parameters would swallow the glue
+		}
 		in.Closes = true
 	default: // junk: totality only
 		in.Params = []string{"", "a", "a,", ",", "a b", "1", "a = 1", "...a", "{a}", "(", ")", "/*", "//", "a\\", "\u2028"}[r.Intn(15)]
@@ -387,6 +407,8 @@ func checkParseFunction(c *run.Ctx, in Input) {
 		c.Fail("mismatch", "parser.ParseFunction", in, "a function literal", "nil literal and nil error", "")
 	case err == nil && in.Closes:
 		c.Fail("mismatch", "parsefunction-accepts-early-close", in, "SyntaxError: the texts are not a FormalParameterList and a FunctionBody (15.3.2.1)", "accepted", "")
+	case err != nil && in.WellFormed:
+		c.Fail("mismatch", "parsefunction-rejects-valid", in, "a function literal", "rejected: "+err.Error(), "")
 	case err != nil:
 		c.Feature("parsefunction:rejected")
 	default:
